@@ -50,6 +50,22 @@ def single_defs(fn_node):
                         bump(x.id, v)
                 elif (
                     isinstance(t, ast.Tuple)
+                    and isinstance(n.value, ast.Subscript)
+                    and isinstance(n.value.slice, ast.Slice)
+                    and n.value.slice.lower is None
+                    and n.value.slice.step is None
+                    and isinstance(n.value.slice.upper, ast.Constant)
+                    and n.value.slice.upper.value == len(t.elts)
+                    and isinstance(n.value.value, (ast.Name, ast.Attribute))
+                    and all(isinstance(x, ast.Name) for x in t.elts)
+                    and len(n.targets) == 1
+                ):
+                    # `a, b = seq[:2]`: a = seq[0], b = seq[1]
+                    for i, x in enumerate(t.elts):
+                        sub = ast.Subscript(value=copy.deepcopy(n.value.value), slice=ast.Constant(value=i), ctx=ast.Load())
+                        bump(x.id, ast.copy_location(sub, n.value))
+                elif (
+                    isinstance(t, ast.Tuple)
                     and isinstance(n.value, (ast.Name, ast.Attribute))
                     and all(isinstance(x, ast.Name) for x in t.elts)
                     and len(n.targets) == 1
